@@ -21,7 +21,9 @@ TARGETS = {"mac": [("p.eth.src", 6, 6), ("p.eth.dst", 0, 6)],
            "ipv6": [("p.eth.ipv6.src", 14 + 8, 16), ("p.eth.ipv6.dst", 14 + 24, 16)],
            # the same headers behind an 802.1Q tag (another path through the layer cache)
            "ipv4/vlan": [("p.eth.vlan.ipv4.src", 18 + 12, 4), ("p.eth.vlan.ipv4.dst", 18 + 16, 4)],
-           "ipv6/vlan": [("p.eth.vlan.ipv6.src", 18 + 8, 16), ("p.eth.vlan.ipv6.dst", 18 + 24, 16)]}
+           "ipv6/vlan": [("p.eth.vlan.ipv6.src", 18 + 8, 16), ("p.eth.vlan.ipv6.dst", 18 + 24, 16)],
+           # an IPv4 header that carries options (the addresses sit in front of them)
+           "ipv4/opts": [("p.eth.ipv4.src", 14 + 12, 4), ("p.eth.ipv4.dst", 14 + 16, 4)]}
 
 
 def structured_v6(rnd):
@@ -50,6 +52,11 @@ def frame_for(fam, rnd=None):
         inner = frame_for(fam.split("/")[0], rnd)
         et = inner[12:14]
         return inner[:12] + b"\x81\x00" + pcapfmt.vlan(vid=7)[:2] + et + inner[14:]
+    if fam == "ipv4/opts":
+        ihl = rnd.choice([6, 7, 15]) if rnd else 7
+        opts = bytes((0x90 + k) & 255 for k in range((ihl - 5) * 4))
+        a = bytes(rnd.randrange(256) for _ in range(8)) if rnd else b"\xc0\xa8\x00\x01\xc0\xa8\x00\xfe"
+        return pcapfmt.eth() + pcapfmt.ipv4(payload_len=20, ihl=ihl, src=a[:4], dst=a[4:], options=opts) + pcapfmt.tcp()
     if fam == "ipv6":
         if rnd and rnd.random() < 0.6:
             return pcapfmt.eth(etype=0x86DD) + pcapfmt.ipv6(payload_len=8, nh=17, src=structured_v6(rnd), dst=structured_v6(rnd)) + pcapfmt.udp()
@@ -82,11 +89,13 @@ def run(rep, tier, seed):
             variants = list(enumerate(TARGETS[c["fam"]]))
             if c["fam"] != "mac" and c["id"] % 4 == 0:
                 variants.append((2, TARGETS[c["fam"] + "/vlan"][0]))
+            if c["fam"] == "ipv4" and c["id"] % 3 == 0:
+                variants.append((3, TARGETS["ipv4/opts"][c["id"] % 2]))
             for ti, (tgt, off, ln) in variants:
                 if ti == 1 and c["tag"].startswith("valid") and n % 3:
                     n += 1
                     continue
-                famkey = c["fam"] + "/vlan" if ti == 2 else c["fam"]
+                famkey = c["fam"] + "/vlan" if ti == 2 else ("ipv4/opts" if ti == 3 else c["fam"])
                 out = os.path.join(d, "o%d.pcap" % len(jobs))
                 src = ('let OBS = [];\nlet f = pcap_open("%s");\nlet p = pcap_read_next(f);\nlet o = pcap_open("%s", "w");\n'
                        '%s = "%s";\npush(OBS, %s);\npcap_write(o, p);\n' % (ins[famkey], out, tgt, text, tgt))
@@ -96,7 +105,7 @@ def run(rep, tier, seed):
         # display round trip on random addresses: read src text, assign it to dst
         nrand = 300 if tier == "quick" else 5000
         for i in range(nrand):
-            fam = rnd.choice(["mac", "ipv4", "ipv6", "ipv6", "ipv4/vlan", "ipv6/vlan"])
+            fam = rnd.choice(["mac", "ipv4", "ipv6", "ipv6", "ipv4/vlan", "ipv6/vlan", "ipv4/opts"])
             fr = frame_for(fam, rnd)
             inp = os.path.join(d, "r%d.pcap" % i)
             with open(inp, "wb") as f:
